@@ -167,6 +167,16 @@ def check(case, ctx):
     est = Ridge2FoldCV(alphas=alphas.copy(), alpha_type=atype, regularization_method=method, scoring=case["scoring"], cv=cv,
                        n_jobs=case["n_jobs"], **kw)
     y1d = bool(case.get("y1d"))
+    if int(case.get("seed", 0)) % 3 == 0:
+        # history: the same object was first configured with other folds (shuffled 2-fold, another random_state) and other
+        # alphas, fitted on data of the same size, then re-configured with set_params to the configuration under test.
+        # Everything below judges the re-configured estimator against the folds it is configured with *now*.
+        ctx.cls("reconfigured-before-fit")
+        target = est.get_params(deep=False)
+        with ctx.lib("fit-before-reconfiguration"):
+            est.set_params(cv=None, shuffle=True, random_state=int(case.get("seed", 0)) + 1, alphas=np.asarray(alphas)[::-1] * 0.5)
+            est.fit(X[::-1], (y[:, 0] if y1d else y)[::-1])
+            est.set_params(**target)
     with ctx.lib("fit"):
         est.fit(X, y[:, 0] if y1d else y)
         pn = est.predict(case["Xnew"])
